@@ -89,7 +89,7 @@ pub fn budget(prop: &str, tier: Tier) -> (u64, u64) {
         "C17" => if q { (2_400, 50) } else { (40_000, 240) },
         "C18" => if q { (60_000, 50) } else { (1_000_000, 420) },
         "C19" => if q { (300_000, 50) } else { (2_000_000, 420) },
-        "C20" => if q { (1_600, 50) } else { (100_000, 420) },
+        "C20" => if q { (2_400, 50) } else { (100_000, 420) },
         _ => (1000, 30),
     }
 }
@@ -707,8 +707,8 @@ pub fn run_shard(a: &ShardArgs, progress: Option<Arc<Progress>>) -> (ShardResult
     let mut exhausted = false;
     let mut last_ckpt = Instant::now();
     let reverse = std::env::var("VH_REVERSE").is_ok() && a.max_cases < u64::MAX / 4;
-    if std::env::var("VH_PRELUDE").is_ok() && a.prop == "C17" {
-        mon::c17::prelude();
+    if let (Ok(v), true) = (std::env::var("VH_PRELUDE"), a.prop == "C17") {
+        mon::c17::prelude(if v == "2" { 2 } else { 1 });
     }
     let snapshot = |obs: &Obs, viols: &BTreeMap<String, ViolRec>, cases: u64, k: u64, stopped_by: &str, exhausted: bool| -> (ShardResult, Vec<u64>) {
         let hashes: Vec<u64> = obs.nontrivial.iter().copied().collect();
